@@ -299,3 +299,22 @@ PROPS['C05'] = dict(
     design_ref='DESIGN.md §4 C05',
 )
 PROPS['C03']['extra'] = deep_probe
+
+# ---------------------------------------------------------------------------
+# C15
+C15_KINDS = {0: 'Score', 1: 'Error', 2: 'TestResult', 3: 'TestResults<Score>', 4: 'TestResults<Error>', 5: 'EcIndividual<Score>', 6: 'EcIndividual<Error>',
+             7: 'TestResults::from', 8: 'collect::<TestResults>', 9: 'GenomeScorer/IndividualGenerator'}
+def c15_describe(inp, obs):
+    return '%s on %s  -- observed [lt,le,gt,ge,eq,ne,cmp,partial_cmp] (cmp: -1 less, 0 equal, 1 greater, 2 n/a) or [total, results...]' % (C15_KINDS.get(inp[0]), inp[1:])
+PROPS['C15'] = dict(
+    corr='CorrC15', judge='(judge_cases judge)', show='(show_cases show [])',
+    coq_targets=['theories/Props/C15.vo', 'theories/Corr/CorrC15.vo'],
+    describe=c15_describe, bucket=lambda i, o: ['type=%s' % C15_KINDS.get(i[0])], classify=lambda i, o: 'order:%s' % C15_KINDS.get(i[0]),
+    nontrivial=lambda i, o: True,
+    rule='all ordered pairs over {MIN, MIN+1, -2, -1, 0, 1, 2, MAX-1, MAX} for Score<i64>, Error<i64>, TestResult<i64,i64> (all four tag combinations) and singleton TestResults; random result vectors incl. empty, reversed, equal-total-different-cases; EcIndividual pairs with equal and different genomes; TestResults::from / collect (results and total fields read back); GenomeScorer and IndividualGenerator with a probe genome maker and an FnScorer. All of <, <=, >, >=, ==, !=, cmp, partial_cmp are observed and compared with Order.v in coqc. Every case is non-trivial; distinct inputs counted.',
+    trusted=[], assumptions=['partial sums stay inside i64 (Iterator::sum overflow is Rust arithmetic: panics in debug, wraps in release) - outside the property domain, see DESIGN C15'],
+    level_text='Theorems (Props/C15.v): Score is a lawful ascending total order, Error the reversed one (reflexive, antisymmetric, transitive, total, cmp b a = CompOpp (cmp a b)), the four comparison operators are consistent with the three-way comparison, a score is never comparable to an error, TestResults and individuals compare exactly as their totals (the genome is never consulted), the total is the sum of the cases kept in order, and scoring a genome yields that genome with the scorer result. Tied to the code by observing all eight operators on boundary and random values.',
+    level_note='Trusted: Coq kernel; harness+driver. `==` on aggregates is structural (derived), ordering is by total - as the code and the property say.',
+    technique='Coq order-law proofs over Z + exhaustive boundary-pair and random differential correspondence of all comparison operators',
+    design_ref='DESIGN.md §6 C15',
+)
